@@ -19,6 +19,11 @@ def main():
     out, focus_file = sys.argv[1:3]
     ids = sys.argv[3:] or CLAIMED
     focus = open(focus_file).read().strip()
+    per = {}
+    if focus.startswith("{"):
+        # a JSON object {"common": "...", "C01": "...", ...}: one focus text per property
+        per = json.loads(focus)
+        focus = per.get("common", "")
     props = {json.loads(l)["id"]: json.loads(l) for l in open("/verif/properties.jsonl")}
     for pid in ids:
         p = props[pid]
@@ -41,7 +46,7 @@ YOUR TASK: produce ONE realistic change to the library source under {wt}/hypergr
  (a) the property above is broken (some clause of its STATEMENT, within its QUANTIFIER),
  (b) the library still imports and the existing test suite stays green: `cd {wt} && PYTHONPATH={wt} /venv/bin/python -m pytest -q -p no:cacheprovider --timeout=900` must still report `430 passed`,
  (c) the breakage needs something SPECIFIC to manifest. It must NOT be something that ordinary first use exposes at once.
-FOCUS for this round - please aim at: {focus}
+FOCUS for this round - please aim at: {(focus + " " + per.get(pid, "")).strip()}
 {NOTES.get(pid, '')}
 These changes have ALREADY been collected for this property; yours must be clearly different (different function AND different mechanism):
 {chr(10).join(have)}
